@@ -1,5 +1,6 @@
 import Dashu.Driver.Loop
 import Dashu.Model.Float.Spec
+import Dashu.Model.Float.QRound
 /-
   Driver of group `float` (C10, C03).
 
@@ -80,6 +81,26 @@ def dlbF32 (B : Nat) (v : Int) : Nat :=
     let lb := (log2Bounds n).1
     let log := if B = 2 then lb else if B = 10 then lb * log10_2 else lb / (log2Bounds B).2
     log.toUInt64.toNat
+
+/-- C10: bit-exact replica of the coarse `f32` test at the head of `Round::round_fract` (`float/src/round.rs`, closure
+    `test`): `(lb, ub) = fmag.log2_bounds()`, `(b_lb, b_ub) = B.log2_bounds()`;
+    `lb + 0.999 > b_ub * precision as f32` ⇒ `Greater`, `ub + 1.001 < b_lb * precision as f32` ⇒ `Less`, otherwise the
+    exact comparison.  `0.999f32 = 0x3F7FBE77`, `1.001f32 = 0x3F8020C5`; `precision as f32` rounds to nearest-even. -/
+def coarseF32 : Coarse := fun B fmag k =>
+  let (lb, ub) := log2Bounds fmag
+  let (blb, bub) := log2Bounds B
+  let kf : Float32 := k.toUInt64.toFloat32
+  if bub * kf < lb + Float32.ofBits 0x3F7FBE77 then some .gt
+  else if ub + Float32.ofBits 0x3F8020C5 < blb * kf then some .lt
+  else none
+
+def parseBool (s : String) : Option Bool :=
+  match s with | "true" => some true | "false" => some false | _ => none
+
+/-- which arm of the coarse test an operand takes (tag for the generator's histogram) -/
+def coarseTag (B fmag k : Nat) : String :=
+  match coarseF32 B fmag k with
+  | some .gt => "coarse-gt" | some .lt => "coarse-lt" | some .eq => "coarse-eq" | none => "exact"
 
 /-- the enclosure hypotheses, checked exactly on an operand -/
 def estSound (B : Nat) (v : Int) : Bool :=
@@ -250,6 +271,22 @@ def qOp (ns ds : String) (f : Int → Nat → String) : Option String := do
   let n ← parseInt ns; let d ← parseNat ds
   if d = 0 then pure (Dashu.Driver.panic "DivideByZero") else pure (f n d)
 
+/-- both public wrappers (`RBig`, `Relaxed`) must return the same thing (the harness merges them likewise) -/
+def qBoth {α : Type} [DecidableEq α] (a b : α) (f : α → String) : String :=
+  if a = b then f a else f a ++ " !model-forms-disagree"
+
+def qreprStr (x : QRepr) : String := intToHex x.num ++ " " ++ natToHex x.den
+
+/-- executable type invariant of a result: `RBig` in lowest terms / `Relaxed` not both even, zero as `0/1` -/
+def qInv (rbig : Bool) (x : QRepr) : Bool :=
+  decide (0 < x.den) && (x.num != 0 || x.den == 1) &&
+    (if rbig then Nat.gcd x.num.natAbs x.den == 1 else !(x.num % 2 == 0 && x.den % 2 == 0))
+
+/-- `n/d = t + f` with `|f| < 1` carrying the sign of `n/d` -/
+def qFractOk (n : Int) (d : Nat) (t : Int) (f : QRepr) : Bool :=
+  decide ((n : Rat) / (d : Rat) = (t : Rat) + (f.num : Rat) / (f.den : Rat)) &&
+    decide (f.num.natAbs < f.den) && decide (f.num * n ≥ 0)
+
 /-- measurement aid (driver only, not a protocol op of the harness): which alignment branch of
     `repr_add_large_small` and which re-alignment case of `repr_round_sum` an add/sub case reaches -/
 def addBranchTag (B : Nat) (p : Nat) (x y : FRepr) (rs : Int) : String :=
@@ -290,12 +327,40 @@ def dispatchCore (asIs : Bool) : Dispatch := fun _W op args =>
     let m ← parseMode ms; let B ← parseDecNat bs
     if !okBase B then none
     let n ← parseInt ns; let f ← parseInt fs; let k ← parseDecNat ks
-    let r := roundFract B m coarseNone n f k
+    -- the mirrored algorithm INCLUDING the coarse f32 test (replica `coarseF32`), compared with the definition of the mode
+    let r := roundFract B m coarseF32 n f k
     let s := ok (rName r)
     if asIs ∨ f.natAbs ≥ B ^ k then pure s
     else
       let spec := specAdj m n ((f : Rat) / ((B ^ k : Nat) : Rat))
       pure (if rInt r = spec then s else mism s ("spec=" ++ adjStr spec))
+  | "r.fracth", [ms, bs, ns, ks, ts, cs, es, negs] => do
+    -- directed probe of the coarse test at huge precisions: |fract| = B^k div 2 + c·(B^k >> t) + e
+    let m ← parseMode ms; let B ← parseDecNat bs
+    if !okBase B then none
+    let n ← parseInt ns; let k ← parseDecNat ks; let t ← parseDecNat ts
+    let c ← parseInt cs; let e ← parseInt es; let neg ← parseBool negs
+    let bk := B ^ k
+    let mag : Int := ((bk >>> 1 : Nat) : Int) + c * ((bk >>> t : Nat) : Int) + e
+    if mag ≤ 0 ∨ mag ≥ (bk : Int) then none
+    let f : Int := if neg then -mag else mag
+    let r := roundFract B m coarseF32 n f k
+    let s := ok (rName r)
+    -- specification: the exact comparison (`round_fract_follows_mode` is stated for it); no `Rat` normalisation of
+    -- multi-megabit operands
+    pure (if asIs ∨ r = roundFract B m coarseNone n f k then s
+          else mism s ("spec=" ++ rName (roundFract B m coarseNone n f k) ++ " " ++ coarseTag B mag.natAbs k))
+  | "dbg.coarse", [bs, ks, ts, cs, es] => do
+    -- measurement aid (driver only): arm of the coarse test and the exact ordering
+    let B ← parseDecNat bs; let k ← parseDecNat ks; let t ← parseDecNat ts
+    let c ← parseInt cs; let e ← parseInt es
+    let bk := B ^ k
+    let mag : Int := ((bk >>> 1 : Nat) : Int) + c * ((bk >>> t : Nat) : Int) + e
+    if mag ≤ 0 then none
+    let ex := compare (2 * mag.natAbs) bk
+    let exs := match ex with | .lt => "lt" | .eq => "eq" | .gt => "gt"
+    let (lb, ub) := log2Bounds mag.natAbs
+    pure (ok (coarseTag B mag.natAbs k ++ " " ++ exs ++ " " ++ toString lb.toBits ++ " " ++ toString ub.toBits))
   | "r.ratio", [ms, bs, ns, nums, dens] => do
     let m ← parseMode ms; let B ← parseDecNat bs
     if !okBase B then none
@@ -391,31 +456,50 @@ def dispatchCore (asIs : Bool) : Dispatch := fun _W op args =>
   | "c.cubic", [a, ps] => do let fa ← parseF a; let p ← parseDecNat ps; unArith asIs true "cubic" fa p
   | "c.inv", [a, ps] => do let fa ← parseF a; let p ← parseDecNat ps; unArith asIs true "inv" fa p
   -- ---------------------------------------------------------------- rational/src/round.rs
+  -- every op runs the mirrored `Repr` method through BOTH public wrappers, on the representation each type holds after
+  -- `from_parts` (`RBig`: lowest terms, `Relaxed`: common powers of two removed); `qBoth` requires them to agree
   | "q.trunc", [ns, ds] => qOp ns ds fun n d =>
-    let r := qTrunc n d
+    qBoth (rbigTrunc (rbigFromParts n d)) (relaxedTrunc (relaxedFromParts n d)) fun r =>
     let s := ok (intToHex r)
     if r = roundInt .zero ((n : Rat) / (d : Rat)) then s else mism s "q.trunc"
   | "q.floor", [ns, ds] => qOp ns ds fun n d =>
-    let r := qFloor n d
+    qBoth (rbigFloor (rbigFromParts n d)) (relaxedFloor (relaxedFromParts n d)) fun r =>
     let s := ok (intToHex r)
     if r = roundInt .down ((n : Rat) / (d : Rat)) then s else mism s "q.floor"
   | "q.ceil", [ns, ds] => qOp ns ds fun n d =>
-    let r := qCeil n d
+    qBoth (rbigCeil (rbigFromParts n d)) (relaxedCeil (relaxedFromParts n d)) fun r =>
     let s := ok (intToHex r)
     if r = roundInt .up ((n : Rat) / (d : Rat)) then s else mism s "q.ceil"
   | "q.round", [ns, ds] => qOp ns ds fun n d =>
-    let r := qRound n d
+    qBoth (rbigRound (rbigFromParts n d)) (relaxedRound (relaxedFromParts n d)) fun r =>
     let s := ok (intToHex r)
     if r = roundInt .halfAway ((n : Rat) / (d : Rat)) then s else mism s "q.round"
   | "q.fract", [ns, ds] => qOp ns ds fun n d =>
-    let f : Rat := (qFractNum n d : Rat) / (d : Rat)
+    let fr := rbigFract (rbigFromParts n d)
+    let fx := relaxedFract (relaxedFromParts n d)
+    qBoth ((fr.num : Rat) / (fr.den : Rat)) ((fx.num : Rat) / (fx.den : Rat)) fun f =>
     let s := ok (intToHex f.num ++ " " ++ natToHex f.den)
     if f = (n : Rat) / (d : Rat) - (roundInt .zero ((n : Rat) / (d : Rat)) : Rat) then s else mism s "q.fract"
   | "q.split", [ns, ds] => qOp ns ds fun n d =>
-    let t := qTrunc n d
-    let f : Rat := (qFractNum n d : Rat) / (d : Rat)
+    let (tr, fr) := rbigSplitAtPoint (rbigFromParts n d)
+    let (tx, fx) := relaxedSplitAtPoint (relaxedFromParts n d)
+    qBoth (tr, (fr.num : Rat) / (fr.den : Rat)) (tx, (fx.num : Rat) / (fx.den : Rat)) fun (t, f) =>
     let s := ok (intToHex t ++ " " ++ intToHex f.num ++ " " ++ natToHex f.den)
     if (t : Rat) + f = (n : Rat) / (d : Rat) ∧ t = roundInt .zero ((n : Rat) / (d : Rat)) then s else mism s "q.split"
+  -- the fraction exactly as each type holds it (numerator, denominator; `RBig` first, then `Relaxed`)
+  | "q.fract_raw", [ns, ds] => qOp ns ds fun n d =>
+    let xr := rbigFromParts n d
+    let xx := relaxedFromParts n d
+    let fr := rbigFract xr
+    let fx := relaxedFract xx
+    let s := ok (qreprStr fr ++ " " ++ qreprStr fx)
+    if qInv true fr ∧ qInv false fx ∧ qFractOk n d xr.trunc fr ∧ qFractOk n d xx.trunc fx then s else mism s "q.fract_raw"
+  | "q.split_raw", [ns, ds] => qOp ns ds fun n d =>
+    let (tr, fr) := rbigSplitAtPoint (rbigFromParts n d)
+    let (tx, fx) := relaxedSplitAtPoint (relaxedFromParts n d)
+    let s := ok (intToHex tr ++ " " ++ qreprStr fr ++ " " ++ intToHex tx ++ " " ++ qreprStr fx)
+    if qInv true fr ∧ qInv false fx ∧ qFractOk n d tr fr ∧ qFractOk n d tx fx ∧
+       tr = roundInt .zero ((n : Rat) / (d : Rat)) ∧ tx = tr then s else mism s "q.split_raw"
   | _, _ => none
 
 def dispatchWith (asIs : Bool) : Dispatch := fun W op args =>
